@@ -1,4 +1,6 @@
 """C15 — every bar is sliced into a well-formed chain of nodes."""
+import re
+
 from .. import gen_struct as G
 from .. import oracles as O
 from .. import stages as S
@@ -38,5 +40,62 @@ SPEC = {
 }
 
 
+def cli_pre(ctx):
+    """the pre command itself (what it writes, read back by the implementation's own reader) goes through the same
+    chain oracle, with and without -w: among the structures one with a weightless material next to ordinary ones"""
+    import random
+    from fractions import Fraction as Fr
+    from .. import cli
+    from .. import common as C
+    rng = random.Random(ctx.seed + 15)
+    structs = []
+    for i in range(4 if ctx.tier == "quick" else 40):
+        s = [G.gen_portal, G.gen_chain, G.gen_frame, G.gen_truss][i % 4](rng)
+        if i % 2 == 0:
+            # a fictitious weightless material (rigid links, ties) on one bar
+            s.mats["weightless"] = (Fr(0), Fr(21000000), Fr(8100000), Fr("0.3"), Fr(27500), Fr(43000))
+            s.bars[i // 2 % len(s.bars)]["mat"] = "weightless"
+        structs.append(s)
+    runs = bad = 0
+    for s in structs:
+        text = s.text()
+        for w in (True, False):
+            args = ["pre"] + (["-w"] if w else []) + ["x.inkfem"]
+            r = cli.run(ctx, args, files={"x.inkfem": text}, name="c15")
+            runs += 1
+            o = S.run_pipeline(ctx, [{"Text": text, "Weight": w}])[0]
+            if o.get("ParsePanic") or not o.get("Pre") or o["Pre"][0].get("Panic"):
+                continue
+            rep = {"args": args, "text": text}
+            pre_text = r.files.get("x.inkfempre")
+            if r.status != 0 or not pre_text:
+                ctx.violation("%s exits %s without x.inkfempre on a structure the library preprocesses" % (" ".join(args), r.status), rep)
+                bad += 1
+                continue
+            back = C.dump("readpre", [{"Text": pre_text}])[0]
+            if back.get("Panic") or not back.get("Pre"):
+                ctx.violation("%s: inkfem does not read back what it wrote: %s" % (" ".join(args), (back.get("Panic") or "")[:200]), rep)
+                bad += 1
+                continue
+            byid = {b["ID"]: b for b in o["Bars"]}
+            fails = []
+            m = re.search(r"includes_own_weight:\s*(\w+)", pre_text)
+            if m and (m.group(1) == "yes") != w:
+                fails.append("the file says includes_own_weight: %s" % m.group(1))
+            for pb in back["Pre"]["Bars"]:
+                if pb["ID"] in byid:
+                    fails += O.c15_bar(byid[pb["ID"]], pb, w)
+            if sorted(pb["ID"] for pb in back["Pre"]["Bars"]) != sorted(byid):
+                fails.append("sliced bars %s are not the bars of the input" % sorted(pb["ID"] for pb in back["Pre"]["Bars"])[:5])
+            if fails:
+                if bad < 3:
+                    ctx.violation("%s writes a structure that is not sliced as documented: %s" % (" ".join(args), "; ".join(fails[:3])), dict(rep, failures=fails[:10]))
+                bad += 1
+    ctx.log("%d runs of the pre command (with and without -w, weightless materials included) read back and put through the chain oracle" % runs)
+    return runs
+
+
 def run(ctx):
     core.run(ctx, SPEC)
+    n = cli_pre(ctx)
+    ctx.coverage["pre_command_runs"] = n
